@@ -12,7 +12,7 @@
    Rust accessors resolve to the same address is cross-checked by the harness on every probe. *)
 From Coq Require Import List ZArith NArith Bool Arith Permutation.
 From EasyML Require Import Base.Sx Model.Shape Model.Views Proofs.ShapeP Proofs.C01P
-  Proofs.C02Lemmas Proofs.C02P Proofs.C02Q.
+  Proofs.C02Lemmas Proofs.C02P Proofs.C02Q Proofs.C02Inj.
 Import ListNotations.
 Open Scope N_scope.
 
@@ -109,6 +109,21 @@ Theorem C02_ctor_strict_outside : forall clip_from c rs, length rs = length (c_s
                  ranged_ctor clip_from c (PAll false rs) = Ok c')).
 Proof. exact strict_rule. Qed.
 
+(* ---- injectivity: writes land on the designated element only ----
+   FULL statement (not proved for stack / chain):
+     forall v c, v_ctor v = Ok c -> usize_view c -> NoDup (map fst (c_leaves c)) -> inj_on c.
+   PROVED: every composition, at any depth, of the nine single-source adaptors (sub-range, mask,
+   selection, expansion, rename, reversal, reordering, transposition, Box/&/&mut) over tensor and
+   matrix-backed leaves: two different in-shape indexes never resolve to the same element, hence
+   a write through the view at idx leaves what every other in-shape index reads unchanged.
+   Missing: the two multi-source adaptors (needs "the element's leaf belongs to the selected
+   source" + pairwise distinct leaves); their write-through behaviour is validated by the
+   correspondence check (write then dump every leaf) only. *)
+Theorem C02_injective_partial : forall v c, v_ctor v = Ok c -> usize_view c -> single_source c ->
+  forall i1 i2, in_range i1 (lens_of (c_shape c)) -> in_range i2 (lens_of (c_shape c)) ->
+    c_get c i1 = c_get c i2 -> i1 = i2.
+Proof. exact (fun v c H U S => single_source_injective c (ctor_wf v c H) U S). Qed.
+
 (* ---- linear layout ----
    FULL statement (not proved in general):
      forall v c order, v_ctor v = Ok c -> c_layout c = Ok (Linear order) ->
@@ -176,5 +191,6 @@ Print Assumptions C02_mapping_stack.
 Print Assumptions C02_mapping_chain.
 Print Assumptions C02_ctor_lenient_clips.
 Print Assumptions C02_ctor_strict_outside.
+Print Assumptions C02_injective_partial.
 Print Assumptions C02_linear_layout_partial.
 Print Assumptions C02_transpose_layout_as_written_refuted.
